@@ -297,9 +297,12 @@ class RepartitionDivisions(Repartition):
             """Whether last division only contains single label"""
             return len(x) >= 2 and x[-1] == x[-2]
 
-        c = [a[0]]
+        # the temporary divisions ``c`` merge ``a`` and ``b`` and must be
+        # sorted: with ``force`` the new divisions may start below the old
+        # ones (``b[0] <= a[0]`` is checked above), so start from ``b[0]``
+        c = [b[0]]
         d = dict()
-        low = a[0]
+        low = b[0]
 
         i, j = 1, 1  # indices for old/new divisions
         k = 0  # index for temp divisions
